@@ -112,6 +112,7 @@ HELPER_A = "from nada_dsl import *\n\ndef scale(x):\n    return x * Integer(3)\n
 HELPER_B = "from nada_dsl import *\n\ndef scale(x):\n    return x * Integer(2)\n"
 MAIN_AB = ("from nada_dsl import *\nfrom helpers import scale\n\n\ndef nada_main():\n    p = Party(name='P0')\n"
            "    v = SecretInteger(Input(name='{n}', party=p))\n    return [Output(scale(v), 'o', p)]\n")
+MAIN_PKG = MAIN_AB.replace("from helpers import scale", "from helperpkg.ops import scale")
 SCALING_PROGRAM = ("from nada_dsl import *\n\ndef scale(x):\n    return x * Integer(3)\n\n\ndef nada_main():\n    p = Party(name='P0')\n"
                    "    v = SecretInteger(Input(name='w', party=p))\n    return [Output(scale(v), 'o', p)]\n")
 MAIN_SCALING = ("from nada_dsl import *\nfrom scaling import scale\n\n\ndef nada_main():\n    p = Party(name='P0')\n"
@@ -160,7 +161,13 @@ def plans_part(ctx, cands, fresh, good, rng):
             ("same-helper-name", {"a/main.py": MAIN_AB.format(n="va"), "a/helpers.py": HELPER_A, "b/main.py": MAIN_AB.format(n="vb"), "b/helpers.py": HELPER_B},
              ["a/main.py", "b/main.py"], "b/main.py"),
             ("helper-named-like-earlier-program", {"a/scaling.py": SCALING_PROGRAM, "b/main.py": MAIN_SCALING, "b/scaling.py": SCALING_B},
-             ["a/scaling.py", "b/main.py"], "b/main.py")):
+             ["a/scaling.py", "b/main.py"], "b/main.py"),
+            ("same-helper-package", {"a/main.py": MAIN_PKG.format(n="va"), "a/helperpkg/__init__.py": "", "a/helperpkg/ops.py": HELPER_A,
+                                     "b/main.py": MAIN_PKG.format(n="vb"), "b/helperpkg/__init__.py": "", "b/helperpkg/ops.py": HELPER_B},
+             ["a/main.py", "b/main.py"], "b/main.py"),
+            ("same-helper-namespace-package", {"a/main.py": MAIN_PKG.format(n="va"), "a/helperpkg/ops.py": HELPER_A,
+                                               "b/main.py": MAIN_PKG.format(n="vb"), "b/helperpkg/ops.py": HELPER_B},
+             ["a/main.py", "b/main.py"], "b/main.py")):
             pd = os.path.join(d, tag)
             for rel, text in files.items():
                 os.makedirs(os.path.dirname(os.path.join(pd, rel)), exist_ok=True)
@@ -201,7 +208,7 @@ def plans_part(ctx, cands, fresh, good, rng):
                                  how_to_replay="tools/run_history.py with a plan: trace / compile steps in the given order"))
     # compile_script histories: the reported program after the history vs compiled alone (another process), up to renaming (Coq)
     sc = {j[0]: (j, r) for j, r in zip(jobs, res) if j[0].startswith("scripts")}
-    tags = ("same-helper-name", "helper-named-like-earlier-program")
+    tags = ("same-helper-name", "helper-named-like-earlier-program", "same-helper-package", "same-helper-namespace-package")
     items = [f"({mirprint.g_ioutcome(sc['scripts:' + t][1])}, {mirprint.g_ioutcome(sc['scripts-alone:' + t][1])})" for t in tags]
     text = (progrun.HEAD + "From NadaV.Spec Require Import MirSpec Equiv.\n"
             "Definition cases : list (ioutcome * ioutcome) :=\n  [" + ";\n   ".join(items) + "].\n"
@@ -221,9 +228,9 @@ def plans_part(ctx, cands, fresh, good, rng):
                                  expected=(r0 if "ok" not in r0 else {k: r0["ok"][k] for k in ("literals", "inputs", "outputs")}),
                                  how_to_replay="in one process: compile_script(<first>) then compile_script(<second>); compare with compile_script(<second>) alone"))
     ctx.note(f"validate: {len(inter)} interleaved trace/compile plans: {len(bad)} differ from the program compiled alone; "
-             f"2 compile_script histories with helper modules: {nsb} differ")
+             f"{len(tags)} compile_script histories with helper modules / packages: {nsb} differ")
     ctx.cov["interleaved_plans"] = len(inter)
-    ctx.cov["compile_script_histories"] = 2
+    ctx.cov["compile_script_histories"] = len(tags)
 
 
 def run(ctx):
